@@ -80,6 +80,8 @@ def run_case(rng, idx, tier):
     kind = ["H", "H", "H", "D", "D", "S", "A"][idx % 7]
     if idx % 14 == 13:
         kind = "N"
+    if idx % 14 == 6:
+        kind = "B"
     try:
         if kind == "H":
             _history(c, rng, tier)
@@ -89,6 +91,8 @@ def run_case(rng, idx, tier):
             _sweep(c, rng, idx)
         elif kind == "N":
             _collide(c, rng)
+        elif kind == "B":
+            _boundary(c, rng)
         else:
             _alias(c, rng)
     finally:
@@ -313,6 +317,62 @@ def _collide(c, rng):
     c.hit("collide_calls", len(done))
     c.sample = {"workload": "collide", "start": sname, "calls": done}
     c.fp = fp_of("N", sname, tuple(done), p)
+
+
+def _boundary(c, rng):
+    """Boundary arguments: public parameter-editing calls asked for a value that conflicts with what the model holds
+    (a bound on the wrong side of the initial estimate, an initial estimate outside the bounds, a fixed value outside the
+    bounds, a new parameter whose initial estimate is outside its own bounds).  Every call may refuse (raise); a call
+    that returns must return a well-formed model (K-WF: every initial estimate within its bounds)."""
+    import pharmpy.modeling as pm
+
+    from vp import contracts, histories
+
+    A = histories.alphabet()
+    with contracts.off():
+        starts = histories.start_models()
+        sname = rng.choice(sorted(starts))
+        model = _fresh(starts[sname])
+        for name in histories.random_history(rng, rng.randint(0, 2)):
+            try:
+                new = A[name][1](model, rng)
+                if new is not None:
+                    model = new
+            except Exception:
+                pass
+        params = [q for q in model.parameters if not q.fix] or list(model.parameters)
+    q = rng.choice(params)
+    q2 = rng.choice(params)
+    mag = abs(float(q.init)) + 1.0
+    inf = float("inf")
+    calls = [
+        ("set_upper_bounds:below-init", lambda: pm.set_upper_bounds(model, {q.name: float(q.init) - mag * rng.choice([0.5, 1, 10])})),
+        ("set_lower_bounds:above-init", lambda: pm.set_lower_bounds(model, {q.name: float(q.init) + mag * rng.choice([0.5, 1, 10])})),
+        ("set_upper_bounds:at-init", lambda: pm.set_upper_bounds(model, {q.name: float(q.init)})),
+        ("set_lower_bounds:at-init", lambda: pm.set_lower_bounds(model, {q.name: float(q.init)})),
+        ("set_upper_bounds:two", lambda: pm.set_upper_bounds(model, {q.name: float(q.init) + mag, q2.name: float(q2.init) - 2 * abs(float(q2.init)) - 1})),
+        ("set_initial_estimates:above-upper", lambda: pm.set_initial_estimates(
+            pm.set_upper_bounds(model, {q.name: float(q.init) + mag}), {q.name: float(q.init) + 3 * mag})),
+        ("set_initial_estimates:below-lower", lambda: pm.set_initial_estimates(
+            pm.set_lower_bounds(model, {q.name: float(q.init) - mag}), {q.name: float(q.init) - 3 * mag})),
+        ("fix_parameters_to:outside", lambda: pm.fix_parameters_to(
+            pm.set_upper_bounds(model, {q.name: float(q.init) + mag}), {q.name: float(q.init) + 3 * mag})),
+        ("add_population_parameter:init-outside", lambda: pm.add_population_parameter(model, "BNDP1", 0.5, lower=1.0, upper=2.0)),
+        ("add_population_parameter:lower-above-upper", lambda: pm.add_population_parameter(model, "BNDP2", 1.5, lower=2.0, upper=1.0)),
+        ("unconstrain_then_lower", lambda: pm.set_lower_bounds(pm.unconstrain_parameters(model, [q.name]), {q.name: float(q.init) + mag})),
+    ]
+    done = []
+    with contextlib.redirect_stdout(io.StringIO()):
+        for name, fn in rng.sample(calls, 6):
+            try:
+                fn()
+                done.append(name)
+            except Exception:
+                c.hit("boundary_call_refused")
+                done.append(name + "!")
+    c.hit("boundary_calls", len(done))
+    c.sample = {"workload": "boundary", "start": sname, "parameter": q.name, "calls": done}
+    c.fp = fp_of("B", sname, q.name, tuple(done))
 
 
 def _alias(c, rng):
